@@ -136,7 +136,9 @@ STD_ENUMS = {
 
 
 class Impl:
-    __slots__ = ('file', 'line', 'generics', 'trait', 'trait_args', 'self_ty', 'assoc', 'end_line', 'derive')
+    __slots__ = ('file', 'line', 'generics', 'trait', 'trait_args', 'self_ty', 'assoc', 'end_line', 'derive', 'bound_into')
+
+    def __init__(self): self.bound_into = None
 
     def __repr__(self): return f'Impl({self.trait} for {self.self_ty} @{self.file}:{self.line})'
 
@@ -377,7 +379,13 @@ class Mir:
             f.is_closure = '{closure#' in f.name.rsplit('::promoted', 1)[0].split('::')[-1] if m else False
             f.impl = None; f.method = f.name.split('::')[-1]; f.generics = None; f.closure_ty = None; f.closure_kind = None
             f.subst_re = None
-            if m and f.name in self.fns: i = j + 1; continue        # the dump repeats some headers: keep the first
+            if m and f.name in self.fns:
+                prev = self.fns[f.name]
+                if prev.argtypes == f.argtypes and prev.ret == f.ret and prev.text_hash == f.text_hash: i = j + 1; continue        # the dump repeats some items verbatim: keep the first
+                # same path, different signature: instances of an impl generated by a macro (one span, several types)
+                k = 2
+                while f'{f.name}#{k}' in self.fns: k += 1
+                f.name = f'{f.name}#{k}'
             self.fns[f.name] = f
             if pm and last_fn is not None: last_fn.promoted[int(pm.group(2))] = f
             if sm: self.statics[sm.group(1).split('::')[-1]] = f
@@ -399,13 +407,30 @@ class Mir:
             file, l, c0, l1, c1 = im.group(1), int(im.group(2)), int(im.group(3)), int(im.group(4)), int(im.group(5))
             impl = self.src.impls.get((file, l))
             line_txt = self.src.files[file][l - 1] if file in self.src.files else ''
-            if impl is None or not re.match(r'\s*(?:unsafe )?impl\b', line_txt[c0 - 1:] if c0 - 1 < len(line_txt) else ''):
+            if '$' in line_txt and re.search(r'\bimpl\b', line_txt):
+                # impl written inside a macro_rules! body: its self type / trait are recovered from the instance's signature
+                k0 = line_txt.index('impl') + 4
+                gens_txt = ''
+                if line_txt[k0:k0 + 1] == '<':
+                    e0 = match_close(line_txt, k0); gens_txt = line_txt[k0 + 1:e0]; k0 = e0 + 1
+                mm = re.match(r'\s+(\w+)(?:<([^>]*)>)?\s+for\b', line_txt[k0:])
+                impl = Impl(); impl.file, impl.line, impl.derive, impl.assoc, impl.end_line = file, l, False, {}, l
+                impl.generics = [re.match(r'\w+', g.strip()).group(0) for g in split_top(gens_txt) if g.strip() and not g.strip().startswith("'")]
+                impl.trait = mm.group(1) if mm else None
+                impl.trait_args = [x.strip() for x in (mm.group(2) or '').split(',') if x.strip()] if mm else []
+                bm = re.search(r'<T as Into<([^>]+(?:<[^<>]*>)?)>>::into', '\n'.join(l2 for b in f.blocks.values() for l2 in b))
+                impl.bound_into = canon(bm.group(1)) if bm else None
+                impl.self_ty = f.ret if (impl.trait == 'From') else (f.argtypes[0].lstrip('&') if f.argtypes else None)
+            if '$' in line_txt and impl is not None and impl.file == file and impl.line == l and impl.end_line == l and not impl.derive and impl.assoc == {} and re.search(r'\bimpl\b', line_txt):
+                pass
+            elif impl is None or not re.match(r'\s*(?:unsafe )?impl\b', line_txt[c0 - 1:] if c0 - 1 < len(line_txt) else ''):
                 tr, ty, gens = self.src.derive_info(file, l, c0, c1)
                 impl = Impl(); impl.file, impl.line, impl.generics, impl.trait, impl.trait_args = file, l, gens, tr.split('::')[-1], []
                 impl.self_ty = ty + ('<' + ', '.join(gens) + '>' if gens else '') if ty else None
                 impl.assoc = {}; impl.derive = True; impl.end_line = l
+                if impl.trait == 'From' and f.argtypes: impl.trait_args = [f.argtypes[0]]       # derive_more::From: one impl per variant
             f.impl = impl
-            rest = name[im.end():]            # ::method or ::method::{closure#0} ...
+            rest = re.sub(r'#\d+$', '', name[im.end():])            # ::method or ::method::{closure#0} ...
             segs = [s for s in rest.split('::') if s]
             f.method = segs[0] if segs else ''
             if not f.is_closure and len(segs) == 1 and impl.self_ty:
